@@ -12,6 +12,8 @@ pub mod c10;
 pub mod c11;
 pub mod c13;
 pub mod c14;
+pub mod c15;
+pub mod c16;
 pub mod c17;
 pub mod c20;
 pub mod codec;
@@ -28,6 +30,8 @@ pub fn run(ctx: &Ctx) -> Result<(), String> {
         "C10" => c10::run(ctx),
         "C11" => c11::run(ctx),
         "C12" => c12::run(ctx),
+        "C15" => c15::run(ctx),
+        "C16" => c16::run(ctx),
         "C17" => c17::run(ctx),
         "C20" => c20::run(ctx),
         "C13" => c13::run(ctx),
@@ -70,6 +74,8 @@ pub fn replay(path: &str) -> i32 {
             "C10" => c10::replay_case(c),
             "C11" => c11::replay_case(c),
             "C12" => c12::replay_case(c),
+            "C15" => c15::replay_case(c),
+            "C16" => c16::replay_case(c),
             "C17" => c17::replay_case(c),
             "C20" => c20::replay_case(c),
             "C13" => c13::replay_case(c),
